@@ -108,10 +108,18 @@ class Lock:
 
 
 def _prune(prefix, keep):
+    """Remove old cached builds, keeping the newest `keep` (at least 4) and everything used within the last two hours, so that
+    checks running concurrently on different source trees (seed tests) cannot remove each other's build."""
+    keep = max(keep, 4)
     ds = sorted(glob.glob(os.path.join(BUILD, prefix + '*')), key=os.path.getmtime)
     ds = [d for d in ds if os.path.isdir(d)]
-    for d in ds[:-keep] if keep else ds:
-        shutil.rmtree(d, ignore_errors=True)
+    now = time.time()
+    for d in ds[:-keep]:
+        try:
+            if now - os.path.getmtime(d) > 7200:
+                shutil.rmtree(d, ignore_errors=True)
+        except OSError:
+            pass
 
 
 def build_lib(flavour='plain'):
